@@ -111,11 +111,21 @@ CaseResult run_dynamic(const RunCtx &ctx, TapeReader &t, unsigned size_hint) {
     // 14..18 levels are live at once (the k-way merge of the iterator, find() and lower_bound() walk all of them)
     const bool deep = sizeof(K) >= 4 && size_hint >= 97 && t.chance(1, 8);
     size_t deep_n = 0;
+    bool deep_full = false;
     if (deep) {
         base = t.chance(3, 4) ? 2 : 4;
         lg = __builtin_ctz(base);
         buffer_level = 1 + (unsigned) t.below(2);
         deep_n = (size_t(1) << 16) + t.below((size_t(1) << 19) - (size_t(1) << 16));
+        if (t.chance(1, 2)) {
+            // "all levels full" boundary: buffer and levels min+1..L completely filled, minus d in 1..3 free buffer slots, so that a
+            // few more updates fit without triggering the cascade that would collapse everything into one level
+            unsigned L = base == 2 ? 13 + (unsigned) t.below(6) : 6 + (unsigned) t.below(4); // top level: 2^13..2^18 / 4^6..4^9 entries
+            size_t total = 0;
+            for (unsigned j = 0; j <= L; ++j) total += size_t(1) << (lg * j);
+            deep_n = total - (1 + t.below(3));
+            deep_full = true;
+        }
         K start = (K) t.below(1000);
         K stride = (K) (1 + t.below(7));
         uni.resize(deep_n + 64);
@@ -158,6 +168,23 @@ CaseResult run_dynamic(const RunCtx &ctx, TapeReader &t, unsigned size_hint) {
         big.b = deep_n;
         big.c = 1;
         ops.push_back(big);
+        if (deep_full) { // newer versions / tombstones of the oldest keys in the buffer, then traversals over all the live levels
+            for (unsigned j = 0; j < 2; ++j) {
+                DynOp o2;
+                o2.kind = t.chance(1, 3) ? DynOp::ERASE : DynOp::INS;
+                o2.a = t.below(8);
+                ops.push_back(o2);
+            }
+            DynOp sc;
+            sc.kind = c05 ? DynOp::LB : DynOp::SCAN;
+            sc.a = 0;
+            ops.push_back(sc);
+            DynOp it2;
+            it2.kind = c05 ? DynOp::FIND : DynOp::ITER_FROM;
+            it2.a = t.below(16);
+            it2.b = 40;
+            ops.push_back(it2);
+        }
         n_ops = 20 + t.below(80);
     }
     // weights: INS ERASE INS_RUN ERASE_RUN FIND LB SCAN ITER_FROM RANGE SIZE_EMPTY ERASE_ALL (erase every live key: the container drains)
@@ -258,6 +285,7 @@ CaseResult run_dynamic(const RunCtx &ctx, TapeReader &t, unsigned size_hint) {
     res.label(bulk_kind == 0 ? "ctor_default" : bulk_kind == 1 ? "ctor_empty_range" : bulk_kind == 4 ? "ctor_bulk_load_capacity_edge" : "ctor_bulk_load");
     res.label(index_level == 0 ? "index_level_default" : "index_level_low");
     if (deep) res.label("deep_history_ge_2p16_inserts");
+    if (deep_full) res.label("deep_all_levels_full");
 
     uint64_t n_updates = 0, n_checks = 0;
     bool saw_deep_merge = false, saw_shadow_erase = false, saw_indexed_level = false, saw_perm_delete_possible = false, saw_ge3_levels = false;
